@@ -15,9 +15,7 @@ pub mod a4 {
       relation r4(i64, i64);
       relation r5(i64, i64);
       relation r6(i64, i64);
-      relation r7(i64);
-      relation r8(i64);
-      relation r9(i64, i64);
+      relation r7(i64, i64);
       r2(v0, ((*v0) + 1)) <-- r1(3, v0, v1), if ((*v0) < 6);
       r3(v0, v0) <-- r2(3, v0), r3(v0, v0);
       r2(v0, v0) <-- r3(v0, v1);
@@ -26,12 +24,10 @@ pub mod a4 {
       r2(v2, v2) <-- r3(0, v0) if ((*v0) <= 5), let v1 = std::cmp::min((*v0), 2), r0(v0, v2);
       r3(v1, ((*v0) + 1)) <-- r0(2, v0) if ((*v0) < 5) let v1 = ((*v0) + 0), for v2 in [2, 0], if ((*v0) < 6);
       r2(0, v3) <-- r0(1, v0), let v1 = std::cmp::min((*v0), 4), r2(v1, v2), r3(v3, v4);
-      r4(v1, (v21 as i64)) <-- r3(v0, v1), agg v21 = count() in r2(_, _);
-      r5(v2, (v21 as i64)) <-- r1(v0, v1, v2), agg v21 = count() in r4(_, _);
-      r6(v1, v21) <-- r0(v0, v1), agg v21 = max(v20) in r1(v20, (*v1), _);
-      r7(v1) <-- r2(v0, v1), agg () = not() in r2((*v0), _);
-      r8(v2) <-- r1(v0, v1, v2), agg v21 = max(v20) in r0(_, v20);
-      r9(v1, v21) <-- r3(v0, v1), agg v21 = max(v20) in r0(2, v20);
+      r4(v35, (v21 as i64)) <-- r3(v0, v1), r1(v32, v33, v34), r2(v35, v36), agg v21 = count() in r2(_, (*v0));
+      r5(v1, v21) <-- r1(v0, v1, v2), agg v21 = max(v20) in r3(v20, _);
+      r6(v32, v21) <-- r3(v0, v1), r1(v1, v32, v1), agg v21 = max(v20) in r5(v20, _);
+      r7(v0, v21) <-- r3(v0, v1), agg v21 = max(v20) in r0((*v0), v20);
    }
    pub struct Inst { p: Prog, pool: Option<ascent::rayon::ThreadPool> }
    pub fn make(pool: Option<usize>) -> Box<dyn Driver> {
@@ -49,16 +45,15 @@ pub mod a4 {
          4 => { let v: Vec<(i64,i64,)> = parse_rows(rows)?; if append { self.p.r4.extend(v) } else { self.p.r4 = v } },
          5 => { let v: Vec<(i64,i64,)> = parse_rows(rows)?; if append { self.p.r5.extend(v) } else { self.p.r5 = v } },
          6 => { let v: Vec<(i64,i64,)> = parse_rows(rows)?; if append { self.p.r6.extend(v) } else { self.p.r6 = v } },
-         7 => { let v: Vec<(i64,)> = parse_rows(rows)?; if append { self.p.r7.extend(v) } else { self.p.r7 = v } },
-         8 => { let v: Vec<(i64,)> = parse_rows(rows)?; if append { self.p.r8.extend(v) } else { self.p.r8 = v } },
-         9 => { let v: Vec<(i64,i64,)> = parse_rows(rows)?; if append { self.p.r9.extend(v) } else { self.p.r9 = v } },
+         7 => { let v: Vec<(i64,i64,)> = parse_rows(rows)?; if append { self.p.r7.extend(v) } else { self.p.r7 = v } },
             _ => return None,
          }
          Some(())
       }
       fn run(&mut self) { match &self.pool { Some(pl) => { let p = &mut self.p; pl.install(|| p.run()) }, None => self.p.run() } }
+      fn run_here(&mut self) { self.p.run() }
       fn run_timeout(&mut self, k: usize) -> Option<bool> { let _ = k; None }
-      fn dump(&self) -> String { vec![dump_rel(0, self.p.r0.iter().map(Row::render).collect()), dump_rel(1, self.p.r1.iter().map(Row::render).collect()), dump_rel(2, self.p.r2.iter().map(Row::render).collect()), dump_rel(3, self.p.r3.iter().map(Row::render).collect()), dump_rel(4, self.p.r4.iter().map(Row::render).collect()), dump_rel(5, self.p.r5.iter().map(Row::render).collect()), dump_rel(6, self.p.r6.iter().map(Row::render).collect()), dump_rel(7, self.p.r7.iter().map(Row::render).collect()), dump_rel(8, self.p.r8.iter().map(Row::render).collect()), dump_rel(9, self.p.r9.iter().map(Row::render).collect())].join(" | ") }
+      fn dump(&self) -> String { vec![dump_rel(0, self.p.r0.iter().map(Row::render).collect()), dump_rel(1, self.p.r1.iter().map(Row::render).collect()), dump_rel(2, self.p.r2.iter().map(Row::render).collect()), dump_rel(3, self.p.r3.iter().map(Row::render).collect()), dump_rel(4, self.p.r4.iter().map(Row::render).collect()), dump_rel(5, self.p.r5.iter().map(Row::render).collect()), dump_rel(6, self.p.r6.iter().map(Row::render).collect()), dump_rel(7, self.p.r7.iter().map(Row::render).collect())].join(" | ") }
       fn iters(&self) -> String { format!("iters {}", self.p.scc_iters.iter().map(|x| x.to_string()).collect::<Vec<_>>().join(" ")) }
    }
 }
@@ -75,19 +70,23 @@ pub mod a12 {
       relation r1(i64, i64);
       relation r2(i64, i64, i64);
       relation r3(i64, i64);
-      relation r4(i64, i64);
-      relation r5(i64);
+      relation r4(i64);
+      relation r5(i64, i64);
       relation r6(i64);
+      relation r7(i64, i64);
+      relation r8(i64);
       r2(v1, v1, ((*v0) + 1)) <-- r1(v0, v1), if ((*v0) < 6);
       r2(v1, ((*v4) + 1), v2) <-- r2(v0, 2, v1) if ((*v0) < 3) let v2 = ((*v1) + 0), r2(v3, v1, v4), if ((*v4) < 6);
       r2(v0, v8, v9) <-- if let Some(v9) = Some(3), r1(v0, v1), r1(v1, v9) let v8 = ((*v0) + 1);
       r2(v0, v0, v0) <-- r1(1, v0), r0(v0), if ((*v0) == 5);
       r2(0, v5, v2) <-- for v0 in 0..1, r2(v1, v2, v3), r1(v2, v1), if ((*v3) < 2), r2(v4, ((*v2) + 1), v5) if (v0 < 6), if ((*v2) == 2);
       r0(3);
-      r3(v0, v21) <-- r1(v0, v1), agg v21 = sum(v20) in r1(v20, 0);
-      r4(v2, (v21 as i64)) <-- r2(v0, v1, v2), agg v21 = count() in r2(_, 0, (*v1));
-      r5(v0) <-- r0(v0), agg v21 = count() in r0(2);
-      r6(v0) <-- r0(v0), agg v21 = min(v20) in r4(_, v20);
+      r3(v0, v21) <-- r1(v0, v1), agg v21 = sum(v20) in r1(0, v20);
+      r4(v0) <-- r2(v0, v1, v2), agg v21 = count() in r2(0, (*v1), _);
+      r5(v0, (v21 as i64)) <-- r2(v0, v1, v2), r1(v2, v1), agg v21 = count() in r0(_);
+      r6(v1) <-- r1(v0, v1), agg v21 = sum(v20) in r0(v20);
+      r7(v35, (v21 as i64)) <-- r2(v0, v1, v2), r1(v33, v34), r2(v35, v36, v35), agg v21 = count() in r5((*v33), (*v0));
+      r8(v33) <-- r2(v0, v1, v2), r1(v2, v33), r0(v34), agg v21 = max(v20) in r5((*v2), v20);
    }
    pub struct Inst { p: Prog, pool: Option<ascent::rayon::ThreadPool> }
    pub fn make(pool: Option<usize>) -> Box<dyn Driver> {
@@ -102,16 +101,19 @@ pub mod a12 {
          1 => { let v: Vec<(i64,i64,)> = parse_rows(rows)?; if append { self.p.r1.extend(v) } else { self.p.r1 = v } },
          2 => { let v: Vec<(i64,i64,i64,)> = parse_rows(rows)?; if append { self.p.r2.extend(v) } else { self.p.r2 = v } },
          3 => { let v: Vec<(i64,i64,)> = parse_rows(rows)?; if append { self.p.r3.extend(v) } else { self.p.r3 = v } },
-         4 => { let v: Vec<(i64,i64,)> = parse_rows(rows)?; if append { self.p.r4.extend(v) } else { self.p.r4 = v } },
-         5 => { let v: Vec<(i64,)> = parse_rows(rows)?; if append { self.p.r5.extend(v) } else { self.p.r5 = v } },
+         4 => { let v: Vec<(i64,)> = parse_rows(rows)?; if append { self.p.r4.extend(v) } else { self.p.r4 = v } },
+         5 => { let v: Vec<(i64,i64,)> = parse_rows(rows)?; if append { self.p.r5.extend(v) } else { self.p.r5 = v } },
          6 => { let v: Vec<(i64,)> = parse_rows(rows)?; if append { self.p.r6.extend(v) } else { self.p.r6 = v } },
+         7 => { let v: Vec<(i64,i64,)> = parse_rows(rows)?; if append { self.p.r7.extend(v) } else { self.p.r7 = v } },
+         8 => { let v: Vec<(i64,)> = parse_rows(rows)?; if append { self.p.r8.extend(v) } else { self.p.r8 = v } },
             _ => return None,
          }
          Some(())
       }
       fn run(&mut self) { match &self.pool { Some(pl) => { let p = &mut self.p; pl.install(|| p.run()) }, None => self.p.run() } }
+      fn run_here(&mut self) { self.p.run() }
       fn run_timeout(&mut self, k: usize) -> Option<bool> { let _ = k; None }
-      fn dump(&self) -> String { vec![dump_rel(0, self.p.r0.iter().map(Row::render).collect()), dump_rel(1, self.p.r1.iter().map(Row::render).collect()), dump_rel(2, self.p.r2.iter().map(Row::render).collect()), dump_rel(3, self.p.r3.iter().map(Row::render).collect()), dump_rel(4, self.p.r4.iter().map(Row::render).collect()), dump_rel(5, self.p.r5.iter().map(Row::render).collect()), dump_rel(6, self.p.r6.iter().map(Row::render).collect())].join(" | ") }
+      fn dump(&self) -> String { vec![dump_rel(0, self.p.r0.iter().map(Row::render).collect()), dump_rel(1, self.p.r1.iter().map(Row::render).collect()), dump_rel(2, self.p.r2.iter().map(Row::render).collect()), dump_rel(3, self.p.r3.iter().map(Row::render).collect()), dump_rel(4, self.p.r4.iter().map(Row::render).collect()), dump_rel(5, self.p.r5.iter().map(Row::render).collect()), dump_rel(6, self.p.r6.iter().map(Row::render).collect()), dump_rel(7, self.p.r7.iter().map(Row::render).collect()), dump_rel(8, self.p.r8.iter().map(Row::render).collect())].join(" | ") }
       fn iters(&self) -> String { format!("iters {}", self.p.scc_iters.iter().map(|x| x.to_string()).collect::<Vec<_>>().join(" ")) }
    }
 }
